@@ -332,6 +332,7 @@ def bounded(tier, seed):
             ctypes = ["application/json; charset=undefined", 'application/json; charset="utf8\x00"',
                       "application/x-www-form-urlencoded; charset=undefined", 'application/x-www-form-urlencoded; charset="utf8\x00"',
                       "multipart/form-data; boundary=b; charset=undefined", 'multipart/form-data; boundary=b; charset="utf8\x00"',
+                      "multipart/form-data; boundary=bound\xe9ry", "multipart/form-data; boundary=----\xffform\x80", 'multipart/form-data; boundary=""',
                       "application/json", "application/json; charset=zz", "application/json; charset=utf-16", "application/x-www-form-urlencoded",
                       "application/x-www-form-urlencoded; charset=utf-8", "application/x-www-form-urlencoded; charset=nope", "multipart/form-data",
                       "multipart/form-data; boundary=b", "text/plain", "", "application/json; charset="]
